@@ -8,9 +8,15 @@ cd /verif || exit 2
 export GOFLAGS=-mod=mod GOPROXY=off GOSUMDB=off GOTOOLCHAIN=local CGO_ENABLED=1
 mkdir -p bin work replays evidence
 cp /repo/go.sum sim/go.sum 2>/dev/null
+# VERIF_REPO (debugging aid, e.g. background runs against a snapshot): build against another copy of plenc
+modflag=""
+if [ -n "${VERIF_REPO:-}" ]; then
+  sed "s|=> /repo\$|=> $VERIF_REPO|" sim/go.mod > sim/go.alt.$$.mod; cp sim/go.sum sim/go.alt.$$.sum
+  modflag="-modfile=go.alt.$$.mod"
+fi
 build() { # build <output> <extra flags...>
   local out="$1"; shift
-  ( cd sim && go build -tags verif "$@" -o "$out.tmp.$$" ./cmd/sim ) 2>work/build.$$.log || {
+  ( cd sim && go build $modflag -tags verif "$@" -o "$out.tmp.$$" ./cmd/sim ) 2>work/build.$$.log || {
     echo "BUILD FAILED (harness trouble, not a violation):" >&2; cat work/build.$$.log >&2; rm -f work/build.$$.log; exit 2; }
   rm -f work/build.$$.log
   mv "$out.tmp.$$" "$out"
@@ -24,5 +30,5 @@ case "$prop" in
 esac
 "$bin" run "$prop" "$tier"
 rc=$?
-rm -f "$bin" "$bin-race"
+rm -f "$bin" "$bin-race" sim/go.alt.$$.mod sim/go.alt.$$.sum
 exit $rc
